@@ -147,11 +147,13 @@ class HDict:
   """Mutable dict with concrete python keys or symbolic int keys.
   concrete: `items` dict key->value.  symbolic: dom Array(Int->Bool), rep arrays for values of type val_t."""
 
-  def __init__(self, items=None, dom=None, val_t=None, rep=None):
+  def __init__(self, items=None, dom=None, val_t=None, rep=None, nin=False, nval=None):
     self.items, self.dom, self.val_t, self.rep = items, dom, val_t, rep
+    # symbolic dicts: the slot of the key None (a legal dict key next to int keys): present? / its value
+    self.nin, self.nval = nin, nval
 
   def clone(self):
-    return HDict(None if self.items is None else dict(self.items), self.dom, self.val_t, self.rep)
+    return HDict(None if self.items is None else dict(self.items), self.dom, self.val_t, self.rep, self.nin, self.nval)
 
   @property
   def symbolic(self):
